@@ -23,6 +23,7 @@
 #include "llvm/ADT/SmallVector.h"
 #include "llvm/Support/raw_ostream.h"
 
+#include <algorithm>
 #include <cstdlib>
 #include <vector>
 
@@ -393,6 +394,9 @@ public:
     Command* decl;
     const Token& startTok;
     bool shellEscapeInAndOut;
+    /// The rule parameters currently being expanded, used to diagnose
+    /// parameters which (directly or indirectly) refer to themselves.
+    SmallVector<StringRef, 4> activeRuleParameters;
   };
   static void lookupBuildParameter(void* userContext, StringRef name,
                                    raw_ostream& result) {
@@ -402,9 +406,7 @@ public:
   void lookupBuildParameterImpl(LookupContext* context, StringRef name,
                                 raw_ostream& result) {
     auto decl = context->decl;
-      
-    // FIXME: Mange recursive lookup? Ninja crashes on it.
-      
+
     // Support "in", "in_newline" and "out".
     if (name == "in" || name == "in_newline") {
       const auto separator = name == "in" ? ' ' : '\n';
@@ -434,11 +436,22 @@ public:
     }
     auto it2 = decl->getRule()->getParameters().find(name);
     if (it2 != decl->getRule()->getParameters().end()) {
+      // Diagnose a rule parameter which refers to itself (e.g., "command =
+      // $command"), expanding it would never terminate.
+      auto& active = context->activeRuleParameters;
+      if (std::find(active.begin(), active.end(), name) != active.end()) {
+        error("cycle in rule variables involving '" + name.str() + "'",
+              context->startTok);
+        return;
+      }
+
+      active.push_back(name);
       evalString(context, it2->second, result, lookupBuildParameter,
                  /*Error=*/ [&](const std::string& msg) {
                    error(msg + " during evaluation of '" + name.str() + "'",
                          context->startTok);
                  });
+      active.pop_back();
       return;
     }
       
